@@ -79,8 +79,10 @@ ValSeq(s) == s.vals
 ValNames(s) == {s.vals[i].p : i \in DOMAIN s.vals}
 ValOf(s, p) == CHOOSE v \in Range(s.vals) : v.p = p
 IsAbsent(p) == p \in Range(ev'.begin.absent)
-Grace(h) == \/ (h >= Cfg.initial - 1 /\ h <= Cfg.initial - 1 + 120)
-            \/ \E i \in DOMAIN st.versions : h >= st.versions[i].h /\ h <= st.versions[i].h + 120
+\* grace: 120 blocks from the initial height and from every network update (a model may state a shorter one in its configuration record)
+GraceBlocks == IF "grace" \in DOMAIN Cfg THEN Cfg.grace ELSE 120
+Grace(h) == \/ (h >= Cfg.initial - 1 /\ h <= Cfg.initial - 1 + GraceBlocks)
+            \/ \E i \in DOMAIN st.versions : h >= st.versions[i].h /\ h <= st.versions[i].h + GraceBlocks
 Evidenced(p) == p \in Range(ev'.begin.evidence)
 \* validators of st that stay validators in st' (nothing about them is recomputed in BeginBlock except marks)
 \* the absence window: 24 blocks in the node; a model may state a smaller one in its configuration record
@@ -120,7 +122,9 @@ C18_Jail ==
 Punishable(p) == p \in DOMAIN st.cands /\ st.cands[p].status = 2 /\ p \in ValNames(st)
 SlashOf(v) == v -- ((v ** Nat2A(95)) // Nat2A(100))
 KeepOf(v) == (v ** Nat2A(95)) // Nat2A(100)
-EvSet == {p \in Range(ev'.begin.evidence) : Punishable(p)}
+\* the node marks absences before it looks at the evidence: a validator switched off for absence in this very block is "already offline"
+\* when its evidence is handled and is not slashed (DESIGN.md 13.8 records this as an observation, not as a finding)
+EvSet == {p \in Range(ev'.begin.evidence) : Punishable(p) /\ ~TooAbsent(p)}
 C18_ByzStakes ==
    Clause("C18", "ByzantineStakesSlashedAndUnbonded", IsKind("BeginBlock") /\ NoPanic /\ EvSet # {},
           \A p \in EvSet :
@@ -146,7 +150,7 @@ C18_ByzSlashedPool ==
                  /\ (\A p \in EvSet : \A s \in Range(st.cands[p].stakes) : s.c = Base) /\ (\A f \in Range(st.frozen) : f.c = Base),
           st'.slashed -- st.slashed =
              SumOver(SetToSeq(EvSet), LAMBDA p : SumOver(st.cands[p].stakes, LAMBDA s : SlashOf(s.v))
-                                                  ++ SumOver(SelectSeq(st.frozen, LAMBDA f : f.key = p /\ f.due > H /\ f.due <= H + Cfg.unbond), LAMBDA f : SlashOf(f.v))),
+                                                  ++ SumOver(SelectSeq(st.frozen, LAMBDA f : f.key = p /\ f.due >= H /\ f.due <= H + Cfg.unbond), LAMBDA f : SlashOf(f.v))),   \* a fund due in this very block is still unbonding when the evidence is handled
           [at |-> Where, evidence |-> EvSet, slashedBefore |-> st.slashed, slashedAfter |-> st'.slashed])
 C18_NoDoublePunish ==
    Clause("C18", "EvidenceAgainstOthersChangesNothing", IsKind("BeginBlock") /\ NoPanic /\ ~NoEvidence /\ EvSet = {},
